@@ -240,6 +240,10 @@ pub fn encode_apng(rng: &mut Rng, img: &HImg, extra_frames: usize, default_in_an
 }
 
 /// `pre_idat`: ancillary chunks written between PLTE/tRNS and the default image's fcTL / IDAT
+/// how often `encode_apng_with` wrote two frames of different size over one stream / a true repeat (for the evidence)
+pub static SHARED_STREAM_PAIRS: AtomicUsize = AtomicUsize::new(0);
+pub static REPEATED_FRAMES: AtomicUsize = AtomicUsize::new(0);
+
 pub fn encode_apng_with(rng: &mut Rng, img: &HImg, extra_frames: usize, default_in_anim: bool, fdat_parts: usize, pre_idat: &[([u8; 4], Vec<u8>)]) -> Vec<u8> {
     let mut out = SIG.to_vec();
     write_chunk(&mut out, b"IHDR", &img.ihdr_bytes());
@@ -292,12 +296,66 @@ pub fn encode_apng_with(rng: &mut Rng, img: &HImg, extra_frames: usize, default_
     if empties & 2 != 0 {
         write_chunk(&mut out, b"IDAT", &[]);
     }
-    for _ in 0..extra_frames {
+    let emit_fdat = |out: &mut Vec<u8>, seq: &mut u32, z: &[u8]| {
+        let parts = fdat_parts.max(1).min(z.len().max(1));
+        let per = (z.len() + parts - 1) / parts;
+        for part in z.chunks(per.max(1)) {
+            let mut d = seq.to_be_bytes().to_vec();
+            d.extend_from_slice(part);
+            write_chunk(out, b"fdAT", &d);
+            *seq += 1;
+        }
+    };
+    let mut left = extra_frames;
+    while left > 0 {
         // a sub-rectangle frame with fresh content
         let fw = rng.range(1, img.w as u64) as u32;
         let fh = rng.range(1, img.h as u64) as u32;
         let fx = rng.below((img.w - fw + 1) as u64) as u32;
         let fy = rng.below((img.h - fh + 1) as u64) as u32;
+        // One time in four two consecutive frames share one compressed stream: a true repeat (same size), or - where
+        // the layouts allow it - two frames of different size whose rows cut the very same filtered stream differently
+        // (equal stream length, a legal filter type wherever either layout starts a row), so that they show different
+        // pixels. Frame data says nothing about a frame's geometry; whatever is remembered per payload must not be
+        // reused across frames.
+        if left >= 2 && rng.chance(1, 3) && !img.il && img.ct != 3 && img.depth >= 8 {
+            let bpp = (channels(img.ct) * img.depth as usize) / 8;
+            // all frame sizes of this canvas, grouped by the length of their filtered stream
+            let mut by_len: std::collections::BTreeMap<usize, Vec<(u32, u32)>> = Default::default();
+            for w1 in 1..=img.w.min(64) {
+                for h1 in 1..=img.h.min(64) {
+                    by_len.entry(h1 as usize * (1 + w1 as usize * bpp)).or_default().push((w1, h1));
+                }
+            }
+            let groups: Vec<&Vec<(u32, u32)>> = by_len.values().filter(|v| v.len() >= 2).collect();
+            if !groups.is_empty() {
+                let grp = *rng.choose(&groups);
+                let i1 = rng.below(grp.len() as u64) as usize;
+                let mut i2 = rng.below(grp.len() as u64 - 1) as usize;
+                if i2 >= i1 { i2 += 1; }
+                let ((fw, fh), (w2, h2)) = (grp[i1], grp[i2]);
+                let len = fh as usize * (1 + fw as usize * bpp);
+                let fx = rng.below((img.w - fw + 1) as u64) as u32;
+                let fy = rng.below((img.h - fh + 1) as u64) as u32;
+                // few distinct byte values, so that recompression pays and the frames really are rewritten
+                let vals: Vec<u8> = (0..rng.range(2, 6)).map(|_| rng.byte()).collect();
+                let mut stream: Vec<u8> = (0..len).map(|_| *rng.choose(&vals)).collect();
+                for k in 0..fh as usize { stream[k * (1 + fw as usize * bpp)] = rng.below(5) as u8; }
+                for k in 0..h2 as usize { stream[k * (1 + w2 as usize * bpp)] = rng.below(5) as u8; }
+                let z = miniz_oxide::deflate::compress_to_vec_zlib(&stream, 1);
+                write_chunk(&mut out, b"fcTL", &fctl(seq, fw, fh, fx, fy, rng));
+                seq += 1;
+                emit_fdat(&mut out, &mut seq, &z);
+                let x2 = rng.below((img.w - w2 + 1) as u64) as u32;
+                let y2 = rng.below((img.h - h2 + 1) as u64) as u32;
+                write_chunk(&mut out, b"fcTL", &fctl(seq, w2, h2, x2, y2, rng));
+                seq += 1;
+                emit_fdat(&mut out, &mut seq, &z);
+                SHARED_STREAM_PAIRS.fetch_add(1, Relaxed);
+                left -= 2;
+                continue;
+            }
+        }
         let (mut g, _) = gen_grid(rng, img.ct, img.depth, fw, fh);
         g.palette = img.palette.clone();
         g.trns = img.trns.clone();
@@ -312,13 +370,15 @@ pub fn encode_apng_with(rng: &mut Rng, img: &HImg, extra_frames: usize, default_
         seq += 1;
         let mut r2 = rng.fork();
         let z = miniz_oxide::deflate::compress_to_vec_zlib(&fimg.filtered(|_| r2.below(5) as u8), 1);
-        let parts = fdat_parts.max(1).min(z.len().max(1));
-        let per = (z.len() + parts - 1) / parts;
-        for part in z.chunks(per.max(1)) {
-            let mut d = seq.to_be_bytes().to_vec();
-            d.extend_from_slice(part);
-            write_chunk(&mut out, b"fdAT", &d);
+        emit_fdat(&mut out, &mut seq, &z);
+        left -= 1;
+        if left >= 1 && rng.chance(1, 8) {
+            // a true repeat of the frame just written
+            write_chunk(&mut out, b"fcTL", &fctl(seq, fw, fh, fx, fy, rng));
             seq += 1;
+            emit_fdat(&mut out, &mut seq, &z);
+            REPEATED_FRAMES.fetch_add(1, Relaxed);
+            left -= 1;
         }
     }
     write_chunk(&mut out, b"IEND", &[]);
